@@ -49,6 +49,10 @@ var c09Jobs = []c09Item{
 	{name: "services", text: "  services:\n    runs-on: ubuntu-latest\n    services:\n      db:\n        image: pg\n    steps:\n      - id: s\n        run: echo ${{ job.services.db.id }} ${{ job.services.nope.id }}\n"},
 	{name: "selfhosted", text: "  selfhosted:\n    runs-on: self-hosted\n    steps:\n      - run: echo\n        shell: sh\n      - run: echo\n        shell: cmd\n      - run: echo\n        shell: powershell\n      - run: echo\n        shell: nosuchshell\n"},
 	{name: "exprrunner", text: "  exprrunner:\n    runs-on: ${{ vars.RUNNER }}\n    defaults:\n      run:\n        shell: sh\n    steps:\n      - run: echo\n      - run: echo\n        shell: cmd\n"},
+	{name: "matrixos", text: "  matrixos:\n    strategy:\n      matrix:\n        os: [ubuntu-latest, macos-latest, windows-latest]\n    runs-on: ${{ matrix.os }}\n    steps:\n      - run: echo\n"},
+	{name: "matrixosincl", text: "  matrixosincl:\n    strategy:\n      matrix:\n        os: [macos-13]\n        include:\n          - os: windows-2022\n    runs-on: [self-hosted, \"${{ matrix.os }}\"]\n    steps:\n      - run: echo\n"},
+	{name: "multilabel", text: "  multilabel:\n    runs-on: [self-hosted, linux, x64]\n    steps:\n      - run: echo\n"},
+	{name: "multilabelconflict", text: "  multilabelconflict:\n    runs-on: [ubuntu-latest, windows-latest, macos-latest]\n    steps:\n      - run: echo\n"},
 	{name: "macrunner", text: "  macrunner:\n    runs-on: macos-latest\n    steps:\n      - run: echo\n        shell: cmd\n      - run: echo\n        shell: sh\n"},
 	{name: "grouprunner", text: "  grouprunner:\n    runs-on:\n      group: mygroup\n    steps:\n      - run: echo\n        shell: powershell\n      - run: echo\n        shell: bash\n"},
 	{name: "bashdefault", text: "  bashdefault:\n    runs-on: ubuntu-latest\n    defaults:\n      run:\n        shell: bash -e {0}\n    steps:\n      - run: echo a\n      - run: print(1)\n        shell: python\n"},
@@ -210,7 +214,7 @@ func TestVerifC09(t *testing.T) {
 	r.Bounds["step_sequence_length"] = stepLen
 	r.Bounds["expression_sequence_length"] = exprLen
 	r.Bounds["jobs"], r.Bounds["steps"], r.Bounds["expressions"] = len(c09Jobs), len(c09Steps), len(c09Exprs)
-	r.Extra["rule"] = "libraries of 26 jobs, 13 steps and 21 expression strings that write rule state (linted with scripted shellcheck / pyflakes enabled; matrix with .*, shell defaults, runner platform, conflicting labels, duplicate ids, needs, outputs, erroneous items); every sequence without repetition up to the length bound in file order; each item's diagnostics (relative positions) compared with the item alone plus its declared dependencies (needed jobs / earlier id-carrying steps); a slice of job pairs under every single map-order deviation. class = (family, item, has diagnostics); non-trivial = the item has diagnostics"
+	r.Extra["rule"] = "libraries of 30 jobs, 13 steps and 21 expression strings that write rule state (linted with scripted shellcheck / pyflakes enabled; matrix with .*, shell defaults, runner platform, conflicting labels, duplicate ids, needs, outputs, erroneous items); every sequence without repetition up to the length bound in file order; each item's diagnostics (relative positions) compared with the item alone plus its declared dependencies (needed jobs / earlier id-carrying steps); a slice of job pairs under every single map-order deviation. class = (family, item, has diagnostics); non-trivial = the item has diagnostics"
 	r.Extra["assumptions"] = []string{"dependencies of a step are the earlier steps that carry an id (verbatim), of a job its needed jobs; everything else counts as unrelated", "line numbers echoed in messages are compared relative to the item"}
 	families := []*c09Family{
 		{name: "jobs", header: "on: pull_request\njobs:\n", items: c09Jobs},
